@@ -14,8 +14,50 @@ NEED = ['v:', 'e:NotFound', 'keys:']
 CORPUS = None
 
 
+def scale_histories(ctx):
+    """histories that are large in ONE dimension each (the generated ones are small in all): many keys, many
+    versions of one key under a pinned snapshot, many open transactions, keys with unusual bytes / lengths"""
+    def hx(x):
+        return (x if isinstance(x, bytes) else x.encode()).hex()
+    big = 3 if ctx.thorough else 1
+    k = hx("k")
+    # (a) many keys: GetKeys and snapshot reads over 1 100 keys, half of them deleted again
+    n = 1100 * big
+    a = ["b 1 RR"] + ["s 0 %s %d set" % (hx("key-%05d" % i), 5000 + i) for i in range(n)] + ["b 2 SER", "k 0", "k 1", "k 2"] + \
+        ["d 0 %s" % hx("key-%05d" % i) for i in range(0, n, 2)] + ["k 0", "k 2", "b 3 RU", "k 3", "g 2 %s" % hx("key-00000"), "gc", "k 0", "k 2", "r 1", "c 2", "r 3", "gc", "k 0"]
+    # (b) many versions of one key: a snapshot pins them, later ones are collected around it
+    m = 1050 * big
+    b = ["s 0 %s 100 set" % k] + ["s 0 %s %d set" % (k, 6000 + i) for i in range(m // 2)] + ["b 1 SER", "g 1 %s" % k] + \
+        ["s 0 %s %d set" % (k, 8000 + i) for i in range(m // 2)] + ["gc", "g 1 %s" % k, "g 0 %s" % k, "b 2 RR", "g 2 %s" % k, "s 0 %s 9999 set" % k,
+         "gc", "g 1 %s" % k, "g 2 %s" % k, "r 1", "gc", "g 2 %s" % k, "g 0 %s" % k, "r 2", "drain", "gc", "drain", "tree"]
+    # (c) many open transactions of all levels, each with own writes, committed / rolled back in mixed order
+    t = 60 * big
+    lv = ["RU", "RC", "RR", "SER"]
+    c = ["s 0 %s 100 set" % k] + ["b %d %s" % (i + 1, lv[i % 4]) for i in range(t)]
+    for i in range(t):
+        c += ["s %d %s %d set" % (i + 1, hx("k%d" % (i % 7)), 7000 + i)]
+        if i % 5 == 0:
+            c += ["g %d %s" % (((i * 7) % t) + 1, hx("k%d" % (i % 7)))]
+    for i in range(t):
+        c += [("c %d" if i % 3 else "r %d") % (((i * 11) % t) + 1)]
+        if i % 6 == 0:
+            c += ["g 0 %s" % hx("k%d" % (i % 7)), "k 0", "gc"]
+    c += ["k 0"] + ["g 0 %s" % hx("k%d" % j) for j in range(7)]
+    # (d) unusual keys: non-UTF-8 bytes, path-like, very long, one byte, keys that are prefixes of each other
+    ks = [b"\xff\xfe\x00\x01", b"../../etc/passwd", b"a/b/c", b"a", b"a\x00", b"a\x00b", b" ", b"\n", "ключ-日本語".encode(), b"x" * 3000, b"x" * 3001, b"file/", b"fileContent/x"]
+    d = []
+    for i, kk in enumerate(ks):
+        d += ["s 0 %s %d %s" % (hx(kk), 9100 + i, ["set", "reader", "create"][i % 3])]
+    d += ["k 0"] + ["g 0 %s" % hx(kk) for kk in ks] + ["b 1 SER"] + ["d 0 %s" % hx(kk) for kk in ks[::2]] + ["k 0", "k 1", "reopen 0", "k 0"] + ["g 0 %s" % hx(kk) for kk in ks]
+    return [a, b, c, d]
+
+
 def correspond(ctx):
-    return seqprop.correspond(ctx, "C02", PROFILE, QUICK, THOROUGH, WHAT, need_answers=NEED, corpus=CORPUS)
+    res = seqprop.correspond(ctx, "C02", PROFILE, QUICK, THOROUGH, WHAT, need_answers=NEED, corpus=CORPUS)
+    v, n = seqprop.corpus_violations(ctx, "C02", "c02scale", scale_histories(ctx), "histories large in one dimension (keys / versions / open transactions / unusual keys)")
+    res["violations"] = list(res.get("violations", [])) + v
+    res.setdefault("coverage", {})["scale_history_lines"] = n
+    return res
 
 
 def search(ctx):
